@@ -174,7 +174,8 @@ TBegin ==
 CandRecs(s, c) ==
     {[claim |-> c.pairs[i].claim, tainted |-> NodeOf(s, c.pairs[i].node).tainted, reason |-> Claim(s, c.pairs[i].claim).reason,
       marked |-> MemMarked(s, c.pairs[i].claim)] :
-       i \in {j \in DOMAIN c.pairs : Claim(s, c.pairs[j].claim).exists /\ ~Claim(s, c.pairs[j].claim).deleting}}
+       i \in {j \in DOMAIN c.pairs : Claim(s, c.pairs[j].claim).exists /\ ~Claim(s, c.pairs[j].claim).deleting
+                                         /\ NodeOf(s, c.pairs[j].node).exists}}
 FirstBad(recs) == CHOOSE n \in recs : ~InService(n)
 
 TEnd ==
@@ -226,12 +227,14 @@ TRestart ==
 TQuiescent ==
     /\ Ev.e = "Quiescent"
     /\ LET protected == UNION {st.cmds[k].cands : k \in Active(st)}
-           idx == {i \in DOMAIN Ev.nodes : ~Ev.nodes[i].deleting /\ Ev.nodes[i].claim \notin protected}
+           \* live nodes only: a NodeClaim whose Node is gone (or never came) is not capacity that could return to service
+           idx == {i \in DOMAIN Ev.nodes : ~Ev.nodes[i].deleting /\ Ev.nodes[i].node # "-" /\ Ev.nodes[i].claim \notin protected}
            owner(c) == IF OwnersOf(st, c) = {} THEN "no-command" ELSE st.cmds[OwnerOf(st, c)].state
            RECURSIVE all(_)
            all(i) == IF i > Len(Ev.nodes) THEN <<>>
-                     ELSE (IF i \in idx THEN Chk(InService(Ev.nodes[i]), "Live_C08_RolledBack",
-                                                 "quiescent:" \o NotInServiceSig(Ev.nodes[i]) \o ":" \o owner(Ev.nodes[i].claim))
+                     ELSE (IF i \in idx THEN Chk(InService(Ev.nodes[i]) /\ Ev.nodes[i].capacity, "Live_C08_RolledBack",
+                                                 "quiescent:" \o (IF InService(Ev.nodes[i]) THEN "not-capacity" ELSE NotInServiceSig(Ev.nodes[i]))
+                                                   \o ":" \o owner(Ev.nodes[i].claim))
                            ELSE <<>>) \o all(i + 1)
            \* a command that met a failure (or whose retry window has closed) is not still in progress once the queue ran
            stuck == {k \in Active(st) : st.cmds[k].failure # "none" \/ Ev.t - st.cmds[k].startedAt > st.cfg.timeoutSec}
